@@ -185,6 +185,10 @@ func c16TxCheck(c c16Tx) (fs []rep.Finding) {
 		sr.NOut--
 	}
 	smaller := c16Build(c16Tx{R: sr, Signed: 2, Script: 0, Amt: c.Amt + 3})
+	// and one of the same shape that spends other outpoints
+	or := c.R
+	or.Vout, or.Seq, or.LT = or.Vout+5, or.Seq-9, or.LT^0x55
+	other := c16Build(c16Tx{R: or, Signed: 2, Script: 0, Amt: c.Amt + 7})
 	defer func() {
 		if !bytes.Equal(tx.Bytes(), pristine.Bytes()) {
 			fs = append(fs, rep.F("marshal-mutates-transaction", fmt.Sprintf("the transaction changed while being marshalled: %x -> %x", pristine.Bytes(), tx.Bytes())))
@@ -206,12 +210,27 @@ func c16TxCheck(c c16Tx) (fs []rep.Finding) {
 			fs = append(fs, rep.F("Tx.json|unmarshal-own", err.Error()))
 		} else if d := sameTx(pristine, &back); d != "" {
 			fs = append(fs, rep.F("Tx.json|roundtrip", d))
-		} else if b2, err := json.Marshal(smaller); err == nil {
-			// the same variable decodes another transaction
-			if err := json.Unmarshal(b2, &back); err != nil {
-				fs = append(fs, rep.F("Tx.json|decode-into-used-tx", err.Error()))
-			} else if d := sameTx(smaller, &back); d != "" {
-				fs = append(fs, rep.F("Tx.json|decode-into-used-tx", d))
+		} else {
+			// the same variable decodes other transactions: same shape, then a smaller one
+			for _, nx := range []*bt.Tx{other, smaller} {
+				b2, err := json.Marshal(nx)
+				if err != nil {
+					continue
+				}
+				if err := json.Unmarshal(b2, &back); err != nil {
+					fs = append(fs, rep.F("Tx.json|decode-into-used-tx", err.Error()))
+				} else if d := sameTx(nx, &back); d != "" {
+					fs = append(fs, rep.F("Tx.json|decode-into-used-tx", d))
+				}
+			}
+			// and a list variable that already holds transactions
+			lst := []*bt.Tx{pristine.Clone(), pristine.Clone()}
+			if b3, err := json.Marshal([]*bt.Tx{other, smaller}); err == nil {
+				if err := json.Unmarshal(b3, &lst); err != nil || len(lst) != 2 {
+					fs = append(fs, rep.F("[]Tx.json|decode-into-used-list", fmt.Sprint(err, len(lst))))
+				} else if d := sameTx(other, lst[0]) + sameTx(smaller, lst[1]); d != "" {
+					fs = append(fs, rep.F("[]Tx.json|decode-into-used-list", d))
+				}
 			}
 		}
 	})
@@ -225,11 +244,17 @@ func c16TxCheck(c c16Tx) (fs []rep.Finding) {
 			fs = append(fs, rep.F("Tx.node|unmarshal-own", err.Error()))
 		} else if d := sameTx(pristine, back); d != "" {
 			fs = append(fs, rep.F("Tx.node|roundtrip", d))
-		} else if b2, err := json.Marshal(smaller.NodeJSON()); err == nil {
-			if err := json.Unmarshal(b2, back.NodeJSON()); err != nil {
-				fs = append(fs, rep.F("Tx.node|decode-into-used-tx", err.Error()))
-			} else if d := sameTx(smaller, back); d != "" {
-				fs = append(fs, rep.F("Tx.node|decode-into-used-tx", d))
+		} else {
+			for _, nx := range []*bt.Tx{other, smaller} {
+				b2, err := json.Marshal(nx.NodeJSON())
+				if err != nil {
+					continue
+				}
+				if err := json.Unmarshal(b2, back.NodeJSON()); err != nil {
+					fs = append(fs, rep.F("Tx.node|decode-into-used-tx", err.Error()))
+				} else if d := sameTx(nx, back); d != "" {
+					fs = append(fs, rep.F("Tx.node|decode-into-used-tx", d))
+				}
 			}
 		}
 	})
